@@ -74,7 +74,8 @@ pub fn explore(ctx: &Ctx) {
     for (lat, lon, gmt) in [(30.0, 0.0, 9.0), (-45.0, 120.0, -4.0), (15.0, -60.0, 6.0), (-23.44, -150.0, 2.0)] {
         jobs.push(Site::new(lat, lon, 0.0, gmt));
     }
-    ctx.alphabet("sites", json!({"count": jobs.len(), "lats": lats, "zones": zs, "far_zone_sites": 4}));
+    jobs.extend(off_lattice_sites(quick, 60.0));
+    ctx.alphabet("sites", json!({"off_lattice_sites": off_lattice_sites(quick, 60.0), "count": jobs.len(), "lats": lats, "zones": zs, "far_zone_sites": 4}));
     ctx.alphabet("dates", json!({"range": "1600-01-01..2399-12-31", "count": all.len()}));
     ctx.alphabet("schools", json!(["Shafi", "Hanafi"]));
     par_jobs(ctx, &jobs, |site, l| {
